@@ -634,7 +634,10 @@ theorem membersOf_addGeneric (gs : List (Nat × Bool × List Nat)) (name : Nat) 
     obtain ⟨n, f, l⟩ := g
     by_cases hn : n = name
     · subst hn
-      by_cases h : n = q <;> simp [addGeneric, membersOf, List.find?, h]
+      by_cases h : n = q
+      · simp [addGeneric, membersOf, List.find?, h]
+      · have hb : (n == q) = false := by simp [h]
+        simp [addGeneric, membersOf, List.find?, h, hb]
     · have hb : (n == name) = false := by simp [hn]
       by_cases hq : n = q
       · subst hq
@@ -657,16 +660,23 @@ theorem generic_members (l : List (Nat × Node)) (q : Nat) : ∀ gs,
     intro gs
     obtain ⟨i, n⟩ := x
     by_cases hw : n.wrapF = true ∧ n.genericKind ≠ 0
-    · simp only [collectGenerics, hw, and_self, if_true, ih, membersOf_addGeneric]
+    · have hc : collectGenerics ((i, n) :: r) gs
+          = collectGenerics r (addGeneric gs n.generic (n.force || n.genericKind == 3) i) := by
+        simp [collectGenerics, hw]
+      rw [hc, ih, membersOf_addGeneric]
       by_cases hq : n.generic = q
+      · simp [hq, hw.1, hw.2, List.filter_cons, List.append_assoc]
       · simp [hq, hw.1, hw.2, List.filter_cons]
-      · simp [hq, hw.1, hw.2, List.filter_cons]
-    · simp only [collectGenerics, hw, if_false, ih]
+    · have hc : collectGenerics ((i, n) :: r) gs = collectGenerics r gs := by
+        simp [collectGenerics, hw]
+      rw [hc, ih]
       have : (n.wrapF && n.genericKind != 0 && n.generic == q) = false := by
         by_cases h1 : n.wrapF = true
-        · have : n.genericKind = 0 := by
-            by_contra h; exact hw ⟨h1, h⟩
-          simp [this]
+        · have h0 : n.genericKind = 0 := by
+            by_cases h : n.genericKind = 0
+            · exact h
+            · exact absurd ⟨h1, h⟩ hw
+          simp [h0]
         · simp [h1]
       simp [List.filter_cons, this]
 
